@@ -12,7 +12,14 @@ Three case kinds (all plain JSON data, see `replay`):
           RAW is a gen.items tree whose nodes may carry "lb" (extra, non-minimal length bytes) and whose
           BOOLEAN elements are raw bytes 0..255; it is encoded with the reference header/payload functions.
   biglist {"kind":"biglist","n":N,"mode":"plain"|"items"|"decode","lb":k}    lists with N elements (255..65536)
-  header  {"kind":"header","f":fmt,"length":n}
+  header  {"kind":"header","f":fmt,"length":n}      Item.encode_item_header / header decoder for one length
+
+Buckets are root-cause keys: a failing list is re-checked member by member and the smallest failing member is
+reported; a wrong first bytes of an encoding is `item-header`; a decode that only fails with extra length bytes is
+`decode-nonminimal-length-bytes:<n>`; an ItemL that only fails in dict form is `itemL-dict-form`.
+Two buckets describe defects present in the unchanged tree (see the Deliverables / known_findings.json):
+  itemb-list-int-zero-fill   ItemB([1,2,3]) stores bytes(1)+bytes(2)+bytes(3) = six zero bytes
+  item-float-nan-rejected    ItemF4/ItemF8 reject NaN on construction and on decode (variables.F4 encodes it)
 
 Oracle (independent: vf/ref/e5.py and integer ranges computed here):
   * ItemX(v).encode() is valid E5 (reference decoder), denotes the model tree, and is byte-identical to the
@@ -63,8 +70,8 @@ RULE = (
     "(bool, ints at every width boundary of both signs and out of range, floats, str, bytes, nested lists); "
     "(b) decode - reference encodings of generated trees with minimal and non-minimal length bytes, raw "
     "boolean bytes, through Item.decode / ItemX.decode / PacketData; (c) boundary payload lengths 255/256/"
-    "65535/65536 (+-1 element) for every type and for list element counts; (d) encode_item_header / header "
-    "decode over sampled (quick) or all 2^24 (thorough) lengths. Oracle: bytes == ref.e5 canonical encoding, "
+    "65535/65536 (+-1 element) for every type and for list element counts, thorough also 16777215-byte A and B "
+    "items; (d) encode_item_header / header decode over sampled (quick) or all 2^24 (thorough) lengths. Oracle: bytes == ref.e5 canonical encoding, "
     "ref.e5 decodes them to the model, .value equals the input (floats by bit pattern), decode(re-encode) "
     "canonical, same bytes as the secsgem.secs.variables object of the same typed tree, from_value type = "
     "narrowest U/I width computed from the ranges. Non-trivial = list-form constructor input, or an integer at a "
@@ -79,6 +86,7 @@ ASSUMPTIONS = [
     "NaN is a value of F4/F8 (IEEE 754, accepted by the variables API); +-inf is not generated",
 ]
 BUDGET_S = {"quick": 100, "thorough": 1200}
+GRACE_S = 300  # watchdog slack after the budget: a shrink in progress (bounded by the runner) may finish on a loaded machine
 EXHAUSTIVE_NOTE = (
     "thorough: Item.encode_item_header and the header decoder over all 16777216 lengths; quick: +-3 around every "
     "threshold plus 60000 sampled. All from_value integers within +-2 of every power-of-two boundary in both tiers."
@@ -168,7 +176,7 @@ def leaf_py(node):
         model = {"f": "F4", "v": [e5.f4_bits(x) for x in xs]}
         return (xs if form == "list" else xs[0]), model
     el = gi.expand(node)
-    model = {k: node[k] for k in ("f", "v", "pat", "n") if k in node}
+    model = {"f": f, "v": el}  # pattern nodes are expanded once (the model is internal, not part of the case)
     if f in e5.INTS:
         vals = [int(x) for x in el]
     elif f in e5.FLOATS:
@@ -557,26 +565,23 @@ def raw_encode(node):
     if f == "L":
         body = b"".join(raw_encode(s) for s in node["v"])
         n = len(node["v"])
-    elif f == "BOOLEAN":
-        body = bytes(gi.expand(node))
-        n = len(body)
     else:
-        body = e5.payload_bytes(f, gi.to_ref(node)[1])
+        el = gi.expand(node)
+        body = bytes(el) if f in ("BOOLEAN", "A", "J", "B") else e5.payload_bytes(f, el)
         n = len(body)
     nlb = min(3, e5.min_nlb(n) + node.get("lb", 0))
     return e5.header(f, n, nlb) + body
 
 
 def canon(node):
+    """The item a raw tree denotes: no length-byte wishes, booleans normalised, patterns expanded once."""
     f = node["f"]
     if f == "L":
         return {"f": "L", "v": [canon(s) for s in node["v"]]}
-    out = {k: node[k] for k in ("f", "v", "pat", "n") if k in node}
+    el = gi.expand(node)
     if f == "BOOLEAN":
-        for k in ("v", "pat"):
-            if k in out:
-                out[k] = [1 if b else 0 for b in out[k]]
-    return out
+        el = [1 if b else 0 for b in el]
+    return {"f": f, "v": el}
 
 
 def check_decode(case):
@@ -751,6 +756,18 @@ INT_EDGES = sorted(
 INT_OUT = [1 << 64, (1 << 64) + 1, -(1 << 63) - 1, -(1 << 63) - 2, 1 << 70, -(1 << 70), 1 << 128]
 
 
+def _weighted(*pairs):
+    """Pick a branch with explicit weights (one_of flattens and de-duplicates nested branches, which skews them)."""
+    idx = [i for i, (w, _) in enumerate(pairs) for _ in range(w)]
+    strats = [s for _, s in pairs]
+
+    @st.composite
+    def _w(draw):
+        return draw(strats[draw(st.sampled_from(idx))])
+
+    return _w()
+
+
 def is_int_edge(n):
     for k in (8, 16, 32, 64):
         if abs(n - (1 << k)) <= 2 or abs(n + (1 << (k - 1))) <= 2 or abs(n - (1 << (k - 1))) <= 2:
@@ -759,12 +776,11 @@ def is_int_edge(n):
 
 
 def plain_int():
-    return st.one_of(
-        st.sampled_from(INT_EDGES),
-        st.sampled_from(INT_EDGES),
-        st.integers(-(1 << 63), (1 << 64) - 1),
-        st.integers(-70000, 70000),
-        st.builds(lambda k, d, s: max(-(1 << 63), min((1 << 64) - 1, s * (1 << k) + d)), st.integers(0, 64), st.integers(-3, 3), st.sampled_from([1, -1])),
+    return _weighted(
+        (2, st.sampled_from(INT_EDGES)),
+        (1, st.integers(-(1 << 63), (1 << 64) - 1)),
+        (1, st.integers(-70000, 70000)),
+        (1, st.builds(lambda k, d, s: max(-(1 << 63), min((1 << 64) - 1, s * (1 << k) + d)), st.integers(0, 64), st.integers(-3, 3), st.sampled_from([1, -1]))),
     ).map(lambda n: {"p": "int", "x": n})
 
 
@@ -777,33 +793,67 @@ def plain_float():
 
 
 def plain_scalar():
-    return st.one_of(
-        plain_int(),
-        plain_int(),
-        st.booleans().map(lambda b: {"p": "bool", "x": 1 if b else 0}),
-        st.lists(gi.byte_elems("A"), max_size=6).map(lambda v: {"p": "str", "x": v}),
-        st.lists(gi.byte_elems("B"), max_size=6).map(lambda v: {"p": "bytes", "x": v}),
-        plain_float(),
+    return _weighted(
+        (4, plain_int()),
+        (1, st.booleans().map(lambda b: {"p": "bool", "x": 1 if b else 0})),
+        (1, st.lists(gi.byte_elems("A"), max_size=6).map(lambda v: {"p": "str", "x": v})),
+        (1, st.lists(gi.byte_elems("B"), max_size=6).map(lambda v: {"p": "bytes", "x": v})),
+        (1, plain_float()),
     )
 
 
 GENERATE_NAN = True  # NaN elements in F4/F8 leaves (about 1 float leaf in 8 may hold one)
 
+_STRATS = {}  # strategies are built once per process (building composites per draw dominates the run time otherwise)
+
+ALL_FORMS = {f: forms_of(f, 1, [0]) for f in gi.SCALARS}
+
+
+def _elems(f, nan=False, ascii_only=False):
+    key = ("el", f, nan, ascii_only)
+    if key not in _STRATS:
+        _STRATS[key] = st.one_of(st.sampled_from([0, 9, 32, 34, 65, 92, 126, 127]), st.integers(0, 127)) if ascii_only else gi.elems(f, nan)
+    return _STRATS[key]
+
+
+def _counts(max_n):
+    return st.one_of(st.sampled_from([0, 1, 1, 2, 3]), st.integers(0, max_n))
+
 
 def _leaf_any(max_n=8):
-    return st.one_of(*([gi.leaf(allow_nan=False, max_n=max_n)] * 7), gi.leaf(allow_nan=GENERATE_NAN, max_n=max_n))
+    """Same population as gi.leaf (uniform type, gi.elems element pools), NaN only in about 1 float leaf of 8."""
+    key = ("leaf", max_n)
+    if key not in _STRATS:
+        counts = _counts(max_n)
+
+        @st.composite
+        def _leaf(draw):
+            f = draw(st.sampled_from(gi.SCALARS))
+            n = draw(counts)
+            nan = GENERATE_NAN and f in e5.FLOATS and draw(st.integers(0, 7)) == 0
+            return {"f": f, "v": draw(st.lists(_elems(f, nan), min_size=n, max_size=n))}
+
+        _STRATS[key] = _leaf()
+    return _STRATS[key]
 
 
 def typed_leaf(max_n=8):
-    leaves = _leaf_any(max_n)
+    """Typed leaf node: type uniform, then constructor form uniform among the type's forms, then a fitting value."""
+    key = ("typed", max_n)
+    if key not in _STRATS:
+        counts = _counts(max_n)
 
-    @st.composite
-    def _s(draw):
-        item = draw(leaves)
-        forms = forms_of(item["f"], len(item["v"]), item["v"])
-        return {"f": item["f"], "v": item["v"], "form": draw(st.sampled_from(forms))}
+        @st.composite
+        def _s(draw):
+            f = draw(st.sampled_from(gi.SCALARS))
+            form = draw(st.sampled_from(ALL_FORMS[f]))
+            n = 1 if form in ("scalar", "int") else draw(counts)
+            nan = GENERATE_NAN and f in e5.FLOATS and draw(st.integers(0, 7)) == 0
+            el = _elems(f, nan, ascii_only=(f == "B" and form in ("str", "strs")))
+            return {"f": f, "v": draw(st.lists(el, min_size=n, max_size=n)), "form": form}
 
-    return _s()
+        _STRATS[key] = _s()
+    return _STRATS[key]
 
 
 def f4_doubles():
@@ -815,24 +865,17 @@ def f4_doubles():
     )
 
 
-_STRATS = {}  # strategies are built once per process (building composites per draw dominates the run time otherwise)
-
-
 def node(depth, width=4):
     """Build-case nodes nesting at most `depth` lists."""
     key = ("node", depth, width)
     if key not in _STRATS:
         if depth <= 0:
-            _STRATS[key] = st.one_of(typed_leaf(), typed_leaf(), plain_scalar(), f4_doubles())
+            _STRATS[key] = _weighted((5, typed_leaf()), (3, plain_scalar()), (1, f4_doubles()))
         else:
             kids = st.lists(node(depth - 1, width), max_size=width)
-            _STRATS[key] = st.one_of(
-                typed_leaf(),
-                plain_scalar(),
-                st.builds(lambda v, form: {"f": "L", "v": v, "form": form}, kids, st.sampled_from(["list", "list", "dict"])),
-                st.builds(lambda v, form: {"f": "L", "v": v, "form": form}, kids, st.sampled_from(["list", "list", "dict"])),
-                kids.map(lambda v: {"p": "list", "x": v}),
-            )
+            typed_l = st.builds(lambda v, form: {"f": "L", "v": v, "form": form}, kids, st.sampled_from(["list", "list", "dict"]))
+            plain_l = kids.map(lambda v: {"p": "list", "x": v})
+            _STRATS[key] = _weighted((3, typed_leaf()), (2, plain_scalar()), (3, typed_l), (2, plain_l))
     return _STRATS[key]
 
 
@@ -868,7 +911,7 @@ def raw_tree(depth, width=4):
             _STRATS[key] = _raw_leaf()
         else:
             lst = st.builds(_with_lb, st.lists(raw_tree(depth - 1, width), max_size=width), st.sampled_from([0, 0, 0, 1, 2]))
-            _STRATS[key] = st.one_of(raw_tree(0, width), lst, lst)
+            _STRATS[key] = _weighted((1, raw_tree(0, width)), (2, lst))
     return _STRATS[key]
 
 
@@ -956,16 +999,10 @@ def decode_classes(raw, via):
 def plan(tier, seed):
     quick = tier == "quick"
     tasks = []
-    per_b = 900 if quick else 22000
-    per_d = 500 if quick else 14000
-    for i in range(16):
-        tasks.append(("build", {"shard": i, "n": per_b}))
-    for i in range(16):
-        tasks.append(("decode", {"shard": i, "n": per_d}))
-    tasks.append(("ints", {}))
-    for i in range(4):
-        tasks.append(("boundary", {"shard": i, "of": 4}))
-    tasks.append(("biglist", {"ns": [0, 1, 254, 255, 256, 257], "modes": ["plain", "items", "decode"], "lbs": [0, 1, 2]}))
+    # slow single cases first so that they overlap with the generated search
+    if not quick:
+        tasks.append(("huge", {"f": "A"}))
+        tasks.append(("huge", {"f": "B"}))
     if quick:
         # one 65536-element list costs seconds in PacketData (it re-slices the rest of the packet per byte)
         tasks.append(("biglist", {"ns": [65535], "modes": ["plain"], "lbs": [0]}))
@@ -978,12 +1015,20 @@ def plan(tier, seed):
                 tasks.append(("biglist", {"ns": [n], "modes": [mode], "lbs": [0]}))
             for lb in (0, 1):
                 tasks.append(("biglist", {"ns": [n], "modes": ["decode"], "lbs": [lb]}))
+    for i in range(4):
+        tasks.append(("boundary", {"shard": i, "of": 4}))
+    tasks.append(("ints", {}))
+    tasks.append(("biglist", {"ns": [0, 1, 254, 255, 256, 257], "modes": ["plain", "items", "decode"], "lbs": [0, 1, 2]}))
     if quick:
         tasks.append(("header", {"mode": "sampled", "n": 60000}))
-    else:
+    per_b = 700 if quick else 30000
+    per_d = 450 if quick else 20000
+    for i in range(16):
+        tasks.append(("build", {"shard": i, "n": per_b}))
+        tasks.append(("decode", {"shard": i, "n": per_d}))
+    if not quick:
         for i in range(16):
             tasks.append(("header", {"mode": "all", "shard": i, "of": 16}))
-        tasks.append(("huge", {}))
     return tasks
 
 
@@ -1003,7 +1048,8 @@ def _pattern(f, rnd):
 def run_task(name, kw, ctx):
     if name == "build":
         deep = 3 if ctx.tier == "quick" else 4
-        strat = st.one_of(node(0), node(1), node(2), node(deep)).map(lambda n: {"kind": "build", "node": n})
+        out_of_range = st.one_of(st.sampled_from(INT_OUT), st.integers(1 << 64, 1 << 80), st.integers(-(1 << 80), -(1 << 63) - 1)).map(lambda n: {"p": "int", "x": n})
+        strat = _weighted((8, node(0)), (4, node(1)), (4, node(2)), (4, node(deep)), (1, out_of_range)).map(lambda n: {"kind": "build", "node": n})
 
         def body(case):
             classes, nt = build_classes(case["node"])
@@ -1012,12 +1058,12 @@ def run_task(name, kw, ctx):
             ctx.case(case, nt, classes + info.get("classes", []))
             return f
 
-        ctx.hyp(strat, body, kw["n"], seed_offset=kw["shard"])
+        ctx.hyp(strat, body, kw["n"], seed_offset=kw["shard"], max_buckets=2)
     elif name == "decode":
         deep = 3 if ctx.tier == "quick" else 5
         strat = st.builds(
             lambda t, via: {"kind": "decode", "item": t, "via": via},
-            st.one_of(raw_tree(0), raw_tree(1), raw_tree(2), raw_tree(deep)),
+            _weighted((2, raw_tree(0)), (1, raw_tree(1)), (1, raw_tree(2)), (1, raw_tree(deep))),
             st.sampled_from(["Item", "Item", "class", "packet"]),
         )
 
@@ -1026,7 +1072,7 @@ def run_task(name, kw, ctx):
             ctx.case(case, nt, classes)
             return check_decode(case)
 
-        ctx.hyp(strat, body, kw["n"], seed_offset=100 + kw["shard"])
+        ctx.hyp(strat, body, kw["n"], seed_offset=100 + kw["shard"], max_buckets=2)
     elif name == "ints":
         rnd = random.Random(ctx.seed + 3)
         xs = list(INT_EDGES) + list(INT_OUT)
@@ -1086,14 +1132,10 @@ def run_task(name, kw, ctx):
         _header_task(kw, ctx)
     elif name == "huge":
         rnd = random.Random(ctx.seed + 7)
-        for f in ("A", "B"):
-            for n in (16777214, 16777215):
-                if ctx.out_of_time():
-                    return
-                pat = _pattern(f, rnd)
-                case = {"kind": "build", "node": {"f": f, "pat": pat, "n": n, "form": "bytes"}, "diff": False}
-                ctx.case(case, True, [f"huge:{f}:{n}"])
-                ctx.report(check_build(case))
+        f, n = kw["f"], 16777215  # the largest payload three length bytes can announce
+        case = {"kind": "build", "node": {"f": f, "pat": _pattern(f, rnd), "n": n, "form": "bytes"}, "diff": True}
+        ctx.case(case, True, [f"huge:{f}:{n}"])
+        ctx.report(check_build(case))
     else:
         raise HarnessError(f"unknown task {name}")
 
